@@ -38,7 +38,7 @@ def gen_sheet(rnd, budget=10, p_nest=.3, max_depth=3):
         buf.append(s); pos[0] += len(s)
 
     def ws():
-        emit(rnd.choice(['', ' ', '\n', '\n  ', ' ', '\n\t']))
+        emit(rnd.choice(['', ' ', '\n', '\n  ', ' ', '\n\t', '\r\n', '\r\n    ', '\xa0', '\n\xa0\xa0', '\r']))
 
     def comment():
         if rnd.random() < .2:
